@@ -70,15 +70,20 @@ CLAIMS = {
    note="Trusted: asyncio call_later/TimerHandle contract (runs once, not before when, never after cancel): 'on time' and 'exactly "
         "once' are this contract plus the invariant; float durations as reals, +inf encoded as 10^300; A-C08."),
  'C05': dict(
-   text="Circuit.init_sblock, _init_sblocks_sync_1 and _init_sblocks_sync_2 (four loops with invariants) and the early-initialisation "
-        "branch of SBlock.event are executed from the real AST.  init_sblock: the routines of a block are called in the order saved "
-        "state (persistent blocks only, first step only), regular routine, initdef value (only if the output is still UNDEF, only "
-        "with init_from_value and a defined initdef), each at most once - an order automaton checked at every traced call; the "
-        "progress marker moves only along 0 -> -1 -> 1 -> -2 -> 2 for every block (a failed step is never retried), which is also the "
-        "guarantee the callers rely on.  sync_2 returns normally only if every sequential block of the circuit has a defined output "
-        "and the change queue is empty.  Writer/caller sets of init_steps_completed/init_sblock/_init_sblocks_async are scan obligations.",
-   note="Trusted: pyvc encoding, z3; initialisation routines are user/library code behind an interface contract (may set outputs, deliver "
-        "events, fail); set_output contract (C02).  Unclaimed: order-independence of success (confluence over whole start-ups)."),
+   text="Circuit.init_sblock, _init_sblocks_sync_1/_2 (four loops with invariants), _init_sblocks_async, _run_tasks, run_forever, "
+        "_check_started, wait_init and the early-initialisation branch of SBlock.event are executed from the real AST.  init_sblock: "
+        "saved state (persistent blocks, first step only), regular routine, initdef value (only if the output is still UNDEF, only with "
+        "init_from_value and a defined initdef), each at most once - an order automaton checked at every traced call; the progress "
+        "marker moves only along 0 -> -1 -> 1 -> -2 -> 2 for every block, which is also the guarantee callers rely on.  Async init: a "
+        "task only for uninitialised blocks with init_async and a positive init_timeout, each wait bounded by the block's own timeout "
+        "counted from the start of the waiting.  sync_2 returns normally only if every sequential block has an output.  run_forever "
+        "reports the initialisation done only after it succeeded with no error recorded; cross-task invariant J (once reported done, "
+        "every block has an output or an error is recorded) is proved at every suspension point of run_forever and at the idle point "
+        "of _simulate; wait_init() returns normally only if the simulation task is running, no error is recorded and every block has "
+        "an output (this obligation found the wait_init defect, fixed in /repo).",
+   note="Trusted: pyvc encoding, z3; initialisation routines are user/library code behind an interface contract; set_output contract "
+        "(C02); asyncio Event/wait/wait_for; A-cancel, A-caller, A-undef-eq.  Unclaimed: order-independence of success (confluence over "
+        "whole start-ups); init_async of AddonAsyncInit/InitAsync/ValuePoll themselves."),
  'C06': dict(
    text="AddonPersistence.event (proof instance for the MRO continuing with SBlock.event), save_persistent_state, "
         "init_from_persistent_data, Circuit._check_persistent_data (two loops with invariants), FSM.get_state, FSM._restore_state and "
@@ -107,7 +112,8 @@ CLAIMS = {
         "(composition of the contracts) and millisecond accuracy (event loop / OS)."),
  'C08': dict(
    text="Circuit.run_forever, _stop_sblocks, _run_tasks, wait_init, _check_started, shutdown, is_current_task, check_not_finalized, "
-        "set_persistent_data and addblock are executed from the real AST; every await is an environment step under the guarantees "
+        "set_persistent_data, addblock, AddonMainTask.start/stop_async, OutputFunc.stop and OutputAsync.start/stop/stop_async are executed "
+        "from the real AST; every await is an environment step under the guarantees "
         "proved elsewhere.  run_forever: an order automaton over the whole life cycle, checked at every traced call: set-up, start() once "
         "per block, the three initialisation steps in order after all blocks were started, _init_done only after a successful "
         "initialisation, states and stop time saved iff the start completed and before stopping, _stop_sblocks exactly once with "
@@ -121,16 +127,22 @@ CLAIMS = {
    note="Trusted: pyvc encoding, z3; asyncio (create_task, wait_for, wait, Event, Task.cancel/done/exception; a requested cancellation ends "
         "a task unless its coroutine suppresses it); start()/stop()/stop_async of blocks are library/user code behind interface "
         "contracts; A-cancel (only Circuit.abort cancels the simulation task: scan; from outside at most while no error is recorded); "
-        "A-caller.  Unclaimed in this revision: edzed.run(), block-level clean-up (AddonMainTask, OutputAsync/OutputFunc stop and "
-        "stop_data, FSM.stop is under C04), timers."),
+        "A-caller.  Block level: AddonMainTask.start/stop_async (one monitored service task; cancelled and awaited, then forgotten), "
+        "OutputFunc.stop and OutputAsync.stop/stop_async (stop_data processed as the last action), FSM.stop under C04; edzed.run() under C09."),
  'C09': dict(
    text="Circuit.abort, SBlock.event (error classification), AddonAsync._task_monitor, ControlBlock._event_shutdown/_event_abort and "
         "Circuit.is_ready are executed from the real AST: abort keeps the first error and cancels the task only then; event() aborts "
         "exactly for exceptions raised inside a handler (not for EdzedUnknownEvent, not for call-level TypeErrors) and re-raises the "
         "original; the task monitor aborts for errors and unexpected service exits but not for cancellation; write-once of "
-        "Circuit._error is a scan obligation (writer set, guarded store in run_forever) plus solver lemmas (not ready stays not ready).",
+        "Circuit._error is a scan obligation (writer set, guarded store in run_forever) plus solver lemmas (not ready stays not ready).  "
+        "Circuit.run_forever raises Circuit.error, which equals the first error recorded at any observation point (history variable) "
+        "and the error given to abort() before the start; shutdown() stops through abort(CancelledError), returns normally iff the "
+        "recorded error is a cancellation and re-raises it otherwise; edzed.run() (two loops with invariants and a ghost witness) "
+        "ends only when every task has ended, cancels only supporting tasks directly, stops the simulation through abort(), returns "
+        "normally only if no task failed and otherwise raises the error of the first failing task in the order simulation, "
+        "coroutine #0, #1, ...",
    note="Trusted: pyvc encoding, z3, asyncio.Task.cancel/done, handler/coroutine interface contracts; traceback introspection "
-        "abstracted to one boolean; A-cancel, A-caller. Unclaimed in this revision: what edzed.run() raises with supporting tasks."),
+        "abstracted to one boolean; A-cancel, A-caller; tasks fail with Exceptions (a BaseException other than CancelledError in a supporting task is outside the model)."),
  'C10': dict(
    text="Circuit._simulate (two while loops, an await, set operations, nested select_blk, try/raise) is executed from the real AST "
         "with a quantified loop invariant: every combinational block is in eval_set, or fed by a queued block, or consistent; and the "
